@@ -17,9 +17,18 @@ r = subprocess.run([os.path.join(HERE, 'bin', 'check'), pid, '--tier', tier], en
                    stderr=subprocess.STDOUT, text=True)
 print(r.stdout[-600:])
 import coverage
-cov = coverage.Coverage(data_file=os.path.join(d, 'cov'))
-cov.combine(glob.glob(os.path.join(d, 'cov.*')))
-data = cov.get_data()
+# union of the per-worker data files (coverage's own combine() was seen to drop lines of some workers)
+class _Union(object):
+    def __init__(self, paths):
+        self.by_file = {}
+        for f in paths:
+            dd = coverage.CoverageData(basename=f)
+            dd.read()
+            for m in dd.measured_files():
+                self.by_file.setdefault(m, set()).update(dd.lines(m) or [])
+    def lines(self, path):
+        return self.by_file.get(path, set())
+data = _Union(glob.glob(os.path.join(d, 'cov.*')))
 out = ['anchor coverage of %s (%s tier), /repo at %s' % (pid, tier, subprocess.run(
     ['git', '-C', repo, 'rev-parse', '--short', 'HEAD'], stdout=subprocess.PIPE, text=True).stdout.strip())]
 words = set(re.findall(r'[A-Za-z_][A-Za-z_0-9]*', text))
